@@ -647,6 +647,11 @@ func signDataToPb(s common.SignData) *middleware_pb.SignData {
 }
 
 func pbToSignData(s middleware_pb.SignData) common.SignData {
-	sign := common.SignData{DataHash: common.BytesToHash(s.DataHash), DataSign: *common.BytesToSign(s.DataSign), Id: string(s.SignMember)}
+	sign := common.SignData{DataHash: common.BytesToHash(s.DataHash), Id: string(s.SignMember)}
+	// BytesToSign returns nil for anything but a 65-byte signature; the zero
+	// signature then simply fails validation
+	if dataSign := common.BytesToSign(s.DataSign); dataSign != nil {
+		sign.DataSign = *dataSign
+	}
 	return sign
 }
